@@ -1,4 +1,4 @@
-; finding: property=C08 id=K08h class=continuation_invoked_by_a_later_evaluation_than_the_one_that_captured_it replay=findings/C08-K08h.scm use after free: frames and continuations refer to the instructions of their top-level form by raw pointer (RootedInstructions, feature rooted-instructions); SteelThread::execute keeps them alive only while the form runs and the executable is dropped at the end of the evaluation, so a continuation stored in a global and invoked by a LATER evaluation on the same engine (REPL, repeated Engine::run) resumes in freed memory: of 160 generated histories that do this 106 go wrong — panic (Option::unwrap on None in handle_read_captures, subtract with overflow), hang, abort, wrong value; in ONE evaluation the same forms give 11 / (in out); fix: /verif/.build/C08/proposed-continuation-keeps-root-instructions.diff
+; fixed: property=C08 2efff3d7 (was finding K08h: a continuation invoked by a later evaluation than the one that captured it resumed in the freed instructions of its top-level form — use after free: panic, hang, abort, wrong value; continuations now keep the instructions alive); kept as regression programs
 (define tr '())
 (define (note x) (set! tr (cons x tr)) x)
 (define g1 #f)
